@@ -1,7 +1,8 @@
-From JamV Require Import Model.Accounts Model.AccCalls Model.HostCalls.
+From JamV Require Import Model.Accounts Model.AccCalls Model.HostCalls Model.InnerVm.
 From Coq Require Import List NArith ZArith.
 Require Import ExtrOcamlBasic.
 Extraction "model.ml" N.of_nat N.to_nat Z.of_N Z.to_N
-  step run credit accumulate ar_exact ar_go ar_go_orig total sum_bal sum_amt
+  AccCalls.step AccCalls.run credit accumulate ar_exact ar_go ar_go_orig total sum_bal sum_amt
   items_of octets_of threshold threshold_raw threshold_u64 threshold_go32 threshold_go64 stor_fp look_fp
-  acc_call acc_table ref_call ref_table auth_table mem_after mwrite mread readable writable error_codes.
+  acc_call acc_table ref_call ref_table auth_table mem_after mwrite mread HostCalls.readable HostCalls.writable error_codes
+  InnerVm.hostcall guest_write set_args with_regs.
